@@ -53,14 +53,19 @@ CHECKS["C13"] = {
     "level": "exploration",
     "technique": "exhaustive enumeration of fixed-width operands and wrapped intervals against modular arithmetic in unsigned __int128",
     "design_ref": "DESIGN.md §2 C13",
-    "jobs": [{"bin": "c13_wrapped", "deadline": {"quick": 200, "thorough": 1200}}],
+    "jobs": [{"bin": "c13_wrapped", "deadline": {"quick": 200, "thorough": 1200}},
+             {"bin": "c13_domain", "deadline": {"quick": 200, "thorough": 900}}],
     "rule": ("wrapint: widths 1..5 (7 thorough) ALL operand pairs, widths 1..64 all pairs of a boundary alphabet "
              "{0,1,2,3,smax,smin,smin+1,umax-1,umax,0x55..,0xAA..,w-1,w} x 18 binary ops, comparisons, unary ops, "
              "sext/zext/keep_lower, signed/unsigned bignum and string conversions. wrapped_interval: widths 1..4 "
              "(5 thorough) every (start,end), top, bottom; all ordered pairs x {+,-,*,SDiv,UDiv,SRem,URem,And,Or,Xor,"
              "Shl,LShr,AShr}, join/meet/widening(+thresholds)/narrowing/inclusion/trim, neg, half lines, "
              "Trunc/SExt/ZExt, to_interval, at: every bit-vector result of every member pair must be a member of the result. "
-             "distinct_nontrivial = distinct operand pairs other than 0/1 (wrapint) or bottom/top (intervals)."),
+             "distinct_nontrivial = distinct operand pairs other than 0/1 (wrapint) or bottom/top (intervals). "
+             "Domain job (c13_domain): the wrapped_interval_domain under machine semantics: all operation histories of depth <=4 core / <=3 everything (5 / 4) over "
+             "an 8-bit variable s8, 32-bit x, y and 64-bit l64 (constants at the signed limits, +1/-1/*2, signed and unsigned division and remainder, "
+             "shifts, bitwise operations, havoc, signed assumes, trunc/sext/zext between the widths, x+y, x*y, save/join/widening/meet), executed on "
+             "sets of machine states (arithmetic modulo 2^w, constraints read as signed): every state must be in at(v) and satisfy the exported constraints."),
     "assumptions": ["LLVM semantics: division by zero, INT_MIN/-1 and shifts >= width are undefined and skipped",
                     "wrapint(z_number) only called when fits_wrapint() holds (documented precondition)"],
     "level_text": ("Complete enumeration of all operands at small widths (where every wrap-around/pole-crossing shape exists) plus "
